@@ -286,6 +286,9 @@ def _model_apply(model, op, drop_at, counter):
         counter[0] += 1
         model.append(counter[0])
         maybe_drop()
+    elif op == "al":
+        model.append(model[-1])   # the row READ from the array (a view of its own backing store) is appended: forward fill
+        maybe_drop()
     elif op == "m0":
         pass                      # extend([]) is a no-op
     elif op.startswith("m"):
@@ -326,13 +329,15 @@ def _run_history(repo, bucket, drop_at, seq):
     model, counter = [], [0]
     row = lambda k: Arr([A(f"r{k}a"), A(f"r{k}b")])
     for step, op in enumerate(seq):
-        valid = not ((op in ("d0", "dl", "dn1") and not model) or (op == "dn2" and len(model) < 2))
+        valid = not ((op in ("d0", "dl", "dn1", "al") and not model) or (op == "dn2" and len(model) < 2))
         if not valid:
             return None          # not a valid list operation: history ends
         before = counter[0]
         try:
             if op == "a":
                 it.call(it.getattr(d, "append"), [row(before + 1)], {})
+            elif op == "al":
+                it.call(it.getattr(d, "append"), [it.call(it.getattr(d, "__getitem__"), [num(-1)], {})], {})
             elif op.startswith("m"):
                 k = int(op[1:])
                 it.call(it.getattr(d, "append_multiple"), [Arr2([row(before + 1 + j) for j in range(k)])], {})
@@ -378,17 +383,17 @@ def check_histories(repo, rep, tier):
     from concurrent.futures import ProcessPoolExecutor
     rid = "C18-R4"
     rep.rule(rid, "bounded operation histories on the repository's class with concrete small buckets and symbolic row values: every "
-                  "history of append / append_multiple(0,2,3 rows) / delete(first) / delete(last) / delete(-1) / delete(-2) / flush up to length L over bucket sizes 2 and 3, "
+                  "history of append / append(arr[-1]) (a view of the array's own last row) / append_multiple(0,2,3 rows) / delete(first) / delete(last) / delete(-1) / delete(-2) / flush up to length L over bucket sizes 2 and 3, "
                   "with and without drop-oldest: no operation valid on the list model raises, and after every step length, all rows and "
                   "arr[-1] equal the list model (drop-oldest: the list truncated to its most recent rows)")
     L = 4 if tier == "quick" else 6
-    ops = ["a", "m0", "m2", "m3", "d0", "dl", "dn1", "dn2", "f"]
+    ops = ["a", "al", "m0", "m2", "m3", "d0", "dl", "dn1", "dn2", "f"]
     jobs = []
     for bucket, drop_at in ((2, None), (3, None), (2, 4), (3, 6), (3, 4)):
         seqs = []
         for n in range(1, L + 1):
             for seq in itertools.product(ops, repeat=n):
-                if seq[0] in ("d0", "dl", "dn1", "dn2", "f"):
+                if seq[0] in ("d0", "dl", "dn1", "dn2", "f", "al"):
                     continue
                 seqs.append(seq)
         chunk = max(1, len(seqs) // 12)
